@@ -152,9 +152,20 @@ class FSock:
             return
         raise sock_err(e)
 
+    def _pending_io(self, key):
+        """I/O on a socket whose connect() has not been seen to finish (the code never does this: uread/uwrite wait
+        for connect_to to be cleared): Linux answers would-block, Windows WSAENOTCONN (the flow would be torn down)"""
+        if self.w.platform == "win32":
+            self.w.rec[key] = "x"
+            raise sock_err(10057)
+        self.w.rec[key] = "a"
+        raise sock_err(errno.EAGAIN)
+
     def recv(self, n):
         self.ops += 1
         rng = self.w.rng
+        if self.inprogress:
+            self._pending_io("recv")
         f = self._fault("recv")
         if f is not None:
             self.plan["fault"] = None
@@ -181,6 +192,8 @@ class FSock:
         if self.shutdown_called:
             self.w.rec["send"] = "p"
             raise sock_err(errno.EPIPE)
+        if self.inprogress:
+            self._pending_io("send")
         f = self._fault("send")
         if f is not None:
             self.plan["fault"] = None
@@ -305,6 +318,38 @@ def v6_available():
         except Exception:
             _V6_OK.append(False)
     return _V6_OK[0]
+
+
+_LOCAL = {}
+
+
+def machine_has(ip, fam):
+    """the harness's own answer to "is this an address of this machine?" (same kernel question as helpers.islocal,
+    asked independently of the code under test; the sandbox's own interface may sit in a documentation range)"""
+    k = (ip, fam)
+    if k not in _LOCAL:
+        try:
+            t = real_socket.socket(fam)
+            try:
+                t.bind((ip, 0))
+                _LOCAL[k] = True
+            finally:
+                t.close()
+        except OSError as e:
+            _LOCAL[k] = False if e.errno == errno.EADDRNOTAVAIL else None
+    return _LOCAL[k]
+
+
+def foreign_addr(rng, fam):
+    """an address that is certainly not one of this machine's (documentation ranges, checked)"""
+    for _ in range(50):
+        if fam == AF6:
+            ip = "2001:db8::%x" % rng.randint(1, 0xffff)
+        else:
+            ip = "%s.%d" % (rng.choice(["192.0.2", "198.51.100", "203.0.113"]), rng.randint(1, 254))
+        if machine_has(ip, fam) is False:
+            return ip
+    return None
 
 
 def own_address(dial):
@@ -839,6 +884,8 @@ def gen_case(rng, profile, quick=True):
         c["iters"] = 90
         if rng.random() < 0.3:
             c["maxc"] = rng.choice([1, 2, 3, 65535])
+    if profile == "fault" and rng.random() < 0.15:
+        c["platform"] = "win32"
     for i in range(nflows):
         def size():
             if big:
@@ -872,23 +919,30 @@ def gen_case(rng, profile, quick=True):
         # ports, and foreign hosts on the very port the client listens on (the self-connection guard has to
         # ask the kernel, helpers.islocal, and must let them through); rarely the client's own listener
         r = rng.random()
+        far6 = foreign_addr(rng, AF6) if v6_available() else None
+        far4 = foreign_addr(rng, AF4)
         if r < 0.10:
-            app["dial"] = ["2001:db8::%x" % rng.randint(1, 0xffff),
-                           rng.choice([22, 443, 65535] + ([LISTEN_PORT] * 3 if v6_available() else [])), AF6]
+            app["dial"] = [far6 or "2001:db8::%x" % rng.randint(1, 0xffff),
+                           rng.choice([22, 443, 65535] + ([LISTEN_PORT] * 3 if far6 else [])), AF6]
         elif r < 0.22:
-            app["dial"] = ["192.0.2.%d" % rng.randint(1, 254), rng.choice([1, 22, LISTEN_PORT, LISTEN_PORT, 65535]), AF4]
-        elif r < 0.24 and profile not in ("many", "reuse"):
+            app["dial"] = [far4 or "198.51.100.7", rng.choice([1, 22, 65535] + ([LISTEN_PORT] * 2 if far4 else [])), AF4]
+        elif r < 0.24 and profile not in ("many", "reuse") and machine_has("127.0.0.1", AF4):
             app["dial"] = ["127.0.0.1", LISTEN_PORT, AF4]
         if profile == "fault" and rng.random() < 0.8:
-            kind = rng.choice(["refused", "recv", "send", "recv", "send", "shutdown", "peername", "bsd", "bsd"])
+            kind = rng.choice(["refused", "recv", "send", "recv", "send", "shutdown", "peername", "bsd", "bsd"]
+                              + (["bsd"] * 6 if c.get("platform") == "win32" else []))
             who = rng.choice([app, dst])
             if kind == "refused":
                 dst["connect"] = rng.choice([["n"], ["p", "n"], ["p", "p", "n"]])
                 dst["connect_errno"] = rng.choice(NET)
                 dst["faulty"] = True
             elif kind == "bsd":
-                # the outcome of a pending connect is reported as EINVAL + SO_ERROR (BSD), or the platform is Windows
-                dst["connect"] = rng.choice([["p", "d"], ["p", "p", "d"], ["p", "n"], ["p", "p", "p", "n"], ["p", "k"]])
+                # the outcome of a pending connect is reported as EINVAL + SO_ERROR (BSD); on Windows the first
+                # call answers WSAEWOULDBLOCK, later ones EINVAL with SO_ERROR 0 while the attempt is still pending
+                if c.get("platform") == "win32":
+                    dst["connect"] = rng.choice([["p", "p", "d"], ["p", "p", "p", "k"], ["p", "p", "p", "p", "d"], ["p", "p", "n"]])
+                else:
+                    dst["connect"] = rng.choice([["p", "d"], ["p", "p", "d"], ["p", "n"], ["p", "p", "p", "n"], ["p", "k"]])
                 dst["einval"] = True
                 if dst["connect"][-1] == "n":
                     dst["connect_errno"] = rng.choice(NET)
@@ -907,11 +961,9 @@ def gen_case(rng, profile, quick=True):
                 who["fault"] = (kind, rng.randint(0, 6), e)
                 who["faulty"] = True
         c["flows"].append((app, dst))
-    if profile == "fault":
+    if profile == "fault" and c.get("platform") is None:
         r = rng.random()
-        if r < 0.12:
-            c["platform"] = "win32"
-        elif r < 0.17 and c["flows"]:
+        if r < 0.06 and c["flows"]:
             # an errno try_connect has never heard of: by design the process gives up (the model says so too)
             c["flows"][-1][1]["connect"] = rng.choice([["x"], ["p", "x"]])
     return c
@@ -1121,6 +1173,14 @@ def check_oracles(w):
         if w.post_crash[other]:
             out["C08"].append(("the tunnel ended at one end and the main loop of the OTHER end died: %s"
                                % w.post_crash[other], det))
+    # C08 "every other flow's bytes and ordering are unaffected": the C01 oracles on the flows that had no fault of
+    # their own, in cases where a neighbour (or the tunnel) failed
+    flist = w.flows()
+    if te or any(d is not None and faulty_flow(a, d) for _, a, d in flist):
+        healthy = set(f for f, a, d in flist if d is not None and not faulty_flow(a, d))
+        for what, det in out["C01"]:
+            if det.get("flow") in healthy:
+                out["C08"].append(("a flow with no fault of its own, next to a failing one: " + what, det))
     for side in ("c", "s"):
         seen = {}
         m = w.mux[side]
@@ -1152,11 +1212,11 @@ def check_oracles(w):
 STREAM_TB = [
     "modelled, not verified: kernel TCP sockets (connect/recv/send/shutdown outcomes are the environment's answers; send() after shutdown(SHUT_WR) fails with EPIPE), level-triggered select, CPython reference counting closing a dropped socket",
     "the ssh link is a FIFO of whole frames in the stream model; its byte-level refinement is property C07 (c07_link_fifo)",
-    "harness/props/stream_common.py: fake sockets/pipes, the micro-step logger wrapped around the real Proxy/Mux methods, and the normalisation that removes the server's initial empty ROUTES message",
+    "harness/props/stream_common.py: fake sockets/pipes/listeners (the real client.MultiListener.add_handler and helpers.islocal are used as they are; islocal binds real kernel sockets), the micro-step logger wrapped around the real Proxy/Mux methods, and the normalisation that removes the server's initial empty ROUTES message",
 ]
 STREAM_ASSUMPTIONS = [
     "connect() reports EINVAL only for a socket whose earlier attempt answered in-progress, and SO_ERROR then holds the outcome (the BSD work-around path of try_connect); Windows is simulated by sys.platform and errno.WSAEWOULDBLOCK as seen by ssnet only",
-    "helpers.islocal runs on real kernel sockets (bind to port 0): 192.0.2.0/24 and 2001:db8::/32 are not addresses of this machine, 127.0.0.1 is",
+    "helpers.islocal runs on real kernel sockets (bind to port 0); which addresses are foreign to this machine (documentation ranges) and that 127.0.0.1 is local is established by the harness with its own bind probe",
     "Mux.fill is only entered when the pipe has data (read() returning None would raise TypeError in a debug2 argument)",
     "ghost flow numbers (fid) are attached by the model only; the correspondence compares everything except them",
 ]
